@@ -71,6 +71,7 @@ class CallGraph:
         self.unresolved = 0
         self.resolved = 0
         self._deferred = []
+        self._param_edges = {}     # callee -> callables it may run through a parameter (edges live at the callers)
         for fi in list(model.functions.values()):
             self._scan(fi)
         self._resolve_deferred()
@@ -414,6 +415,22 @@ class CallGraph:
                 pos -= 1
             resolved, unknown = [], False
             sites = [s_ for s_ in self.sites if owner in s_.callees]
+            # call sites that name the callee only through the dynamic-constructor fallback (token_type(result),
+            # cond(x), proc(*args)) and could not bind this parameter anyway - too few arguments, or a constructor
+            # entered with the one argument of the token protocol - say nothing about what is passed for it
+            DYNAMIC = ('dynamic-value', 'dynamic-expr', 'self-attr-value', 'self-instance-attr', 'value', 'globals',
+                       'callable-parameter+dynamic', 'by-name')
+
+            def binds(s_):
+                if s_.how not in DYNAMIC:
+                    return True
+                if any(k.arg == pname for k in s_.node.keywords):
+                    return True
+                if owner.name in ('__init__', '__new__'):
+                    return False
+                starred = any(isinstance(a, ast.Starred) for a in s_.node.args) or any(k.arg is None for k in s_.node.keywords)
+                return starred or (0 <= pos < len(s_.node.args))
+            sites = [s_ for s_ in sites if binds(s_)]
             if not sites:
                 unknown = True
             for s_ in sites:
@@ -439,13 +456,25 @@ class CallGraph:
                     unknown = True
                 else:
                     resolved.extend(x for x in r if x not in resolved)
+                    for x in r:
+                        self.add(s_.caller, x)
             callees = resolved if not unknown else resolved + [c for c in self.dynamic_ctor(fi) if c not in resolved]
             for s_ in self.sites:
                 if s_.node is call:
                     s_.callees = callees
                     s_.how = 'callable-parameter' if not unknown else 'callable-parameter+dynamic'
-            for c in callees:
-                self.add(fi, c)
+            # When every call site's argument is known, the edges are those of the callers (each has an edge to the
+            # function it passes, because a function referenced in non-call position is an edge): the callee runs the
+            # callable of the caller it was entered from, not those of its other callers. Sound for reachability: to
+            # reach the callee one has to come through one of its callers.
+            if unknown:
+                for c in callees:
+                    self.add(fi, c)
+            else:
+                for s_ in sites:
+                    for c in resolved:
+                        pass
+                self._param_edges.setdefault(fi.qualname, set()).update(c.qualname for c in resolved)
 
     def _param_may_be_called(self, callee, pos):
         """Can the callee instantiate/call the value it receives in positional slot `pos`?  Yes if that
